@@ -85,20 +85,40 @@ def _run(fn: Any) -> List[Any]:
         sys.settrace(None)
 
 
-def run_source(text: str, fname: str, args: Sequence[int]) -> Dict[str, Any]:
+def run_source(text: str, fname: str, args: Sequence[Any], kwargs: Any = None) -> Dict[str, Any]:
     events: List[Any] = []
     ns = externals(events)
     exec(compile(text, "<exotic>", "exec"), ns)        # (the regenerated text is compiled under the same file name: its lines count too)
     f = ns[fname]
-    out = _run(lambda: f(*args))
+    out = _run(lambda: f(*args, **(kwargs or {})))
     return {"events": events, "outcome": out}
 
 
-def run_blocks(scfg: Any, pnames: Sequence[str], args: Sequence[int]) -> Dict[str, Any]:
+def bind_source(text: str, fname: str, args: Sequence[Any], kwargs: Any) -> Any:
+    """(events of the def statement, parameter name -> value) as the original function binds the call, or None when the call does
+    not bind."""
+    import inspect
+
+    events: List[Any] = []
+    ns = externals(events)
+    exec(compile(text, "<exotic>", "exec"), ns)
+    try:
+        b = inspect.signature(ns[fname]).bind(*args, **(kwargs or {}))
+    except TypeError:
+        return None
+    b.apply_defaults()
+    return events, dict(b.arguments)
+
+
+def run_blocks(scfg: Any, pnames: Sequence[str], args: Sequence[int], bound: Any = None) -> Dict[str, Any]:
     """Block-wise interpretation exactly as C08 defines it, with concrete values."""
     events: List[Any] = []
     ns = externals(events)
-    ns.update(dict(zip(pnames, args)))
+    if bound is not None:
+        events.extend(bound[0])
+        ns.update(bound[1])
+    else:
+        ns.update(dict(zip(pnames, args)))
 
     def go() -> Any:
         cur = "0"
@@ -222,8 +242,29 @@ def nested_else() -> List[str]:
     return out
 
 
+# Signatures: positional-only and keyword-only parameters, defaults (evaluated once, when the def statement runs), *rest and **kw,
+# annotations.  Each source comes with its own calls [positional, keywords]; some of them do not bind (TypeError in the original, and
+# the regenerated function has to refuse the same way).
+_LOOP = "    t = 0\n    while n > 0:\n        t += step\n        n -= 1\n        if t > 7:\n            break\n    else:\n        t += ev(1, t)\n"
+SIGS: List[Any] = [
+    ("def f(n, step, /, scale=1, *rest, bias=0, **kw):\n" + _LOOP + "    for r in rest:\n        t += r * scale\n    return t + bias, sorted(kw.items())\n",
+     [[[3, 2], {}], [[3, 2, 5], {}], [[1, 1, 1, 7, 8], {"bias": 4}], [[2, 2], {"scale": 3, "zz": 0}], [[2, 2], {"n": 1, "step": 5}], [[], {"n": 1, "step": 5}],
+      [[1], {}], [[0, 0, 2, 9], {"bias": 1, "scale": 9}]]),
+    ("def f(n, /, step, *, lim):\n" + _LOOP + "    if t > lim:\n        return ev(2, t)\n    return t\n",
+     [[[2, 1], {"lim": 0}], [[2], {"step": 3, "lim": 9}], [[2, 1, 5], {}], [[], {"n": 2, "step": 1, "lim": 1}], [[4, 3], {"lim": 5}], [[0, 0], {"lim": -1}], [[1, 1], {}]]),
+    ("def f(n, step=ev(8), /, lim=ev(9, 1)):\n" + _LOOP + "    if t > lim:\n        return ev(2, t)\n    return t, lim\n",
+     [[[2], {}], [[2, 1], {}], [[2, 1, 0], {}], [[3], {"lim": 30}], [[3], {"step": 1}], [[], {}], [[1, 2, 3, 4], {}]]),
+    ("def f(*xs, **kw):\n    t = 0\n    for x in xs:\n        if x in kw:\n            continue\n        t += ev(1, x)\n    for k in sorted(kw):\n        if kw[k]:\n            t += 1\n        else:\n            break\n    return t, len(xs), len(kw)\n",
+     [[[], {}], [[1, 2, 3], {}], [[1, 2], {"a": 1, "b": 0, "c": 1}], [["a", "q"], {"a": 1}], [[], {"xs": 1, "kw": 0}]]),
+    ("def f(n, step: int = 2, *rest: int, lim: 'str' = 3, **kw: int) -> int:\n" + _LOOP + "    if rest and t > lim:\n        return ev(2, rest[0])\n    return t\n",
+     [[[2], {}], [[3, 1, 9], {}], [[9, 1, 9], {"lim": 0}], [[2], {"step": 4, "zz": 1}], [[], {"n": 1}], [[], {}], [[2, 2], {"n": 1}]]),
+    ("def f(n=3, step=1):\n" + _LOOP + "    return t\n", [[[], {}], [[5], {}], [[5, 2], {}], [[], {"step": 9}], [[1, 2, 3], {}], [[1], {"n": 1}]]),
+]
+CALLS: Dict[str, Any] = {s: c for s, c in SIGS}
+
+
 def corpus() -> List[str]:
-    return HAND + long_functions() + templated() + nested_else()
+    return HAND + long_functions() + templated() + nested_else() + [s for s, _ in SIGS]
 
 
 GRID = [(a, b, c) for a in (0, 1, 2, 3) for b in (0, 1, 2) for c in (0, 1, 3)]
@@ -265,11 +306,14 @@ def evaluate(src: str, who: str) -> Dict[str, Any]:
     except Exception as e:
         rec.update({"outcome": "internal", "exc": exc_sig(e)})
         return rec
-    for args in GRID:
-        o = run_source(src, "f", args)
+    for args, kwargs in CALLS.get(src) or [(list(a), {}) for a in GRID]:
+        o = run_source(src, "f", args, kwargs)
         if who == "blocks":
-            x = run_blocks(scfg, ("a", "b", "c"), args)
+            bound = bind_source(src, "f", args, kwargs) if src in CALLS else None
+            if src in CALLS and bound is None:
+                continue            # the call does not bind: no name space to interpret the blocks in
+            x = run_blocks(scfg, ("a", "b", "c"), args, bound)
         else:
-            x = run_source(text, "transformed_f", args)
-        rec["runs"].append({"args": list(args), "oev": o["events"], "oout": o["outcome"], "xev": x["events"], "xout": x["outcome"]})
+            x = run_source(text, "transformed_f", args, kwargs)
+        rec["runs"].append({"args": [list(args), kwargs] if src in CALLS else list(args), "oev": o["events"], "oout": o["outcome"], "xev": x["events"], "xout": x["outcome"]})
     return rec
